@@ -689,6 +689,32 @@ def hex_regular_map(deck):
     return [[float(v) for v in row] for row in A]
 
 
+def scaled(deck, k):
+    """The deck with every length multiplied by the integer k (plane normals unchanged, only the D terms, radii,
+    positions, displacements and lattice base vectors grow): an exact deck of its own, the twin of `deck` with the
+    same orientation of every plane and another pitch.  None for surface kinds it does not know."""
+    import copy
+    d = copy.deepcopy(deck)
+    for s in d['surfs']:
+        if s['k'] in ('so', 'px', 'py', 'pz', 'cx', 'cy', 'cz'):
+            s['p'] = [v * k for v in s['p']]
+        elif s['k'] == 'p' and len(s['p']) == 4:
+            s['p'] = list(s['p'][:3]) + [s['p'][3] * k]
+        elif s['k'] in ('s', 'c/x', 'c/y', 'c/z', 'sx', 'sy', 'sz'):
+            s['p'] = [v * k for v in s['p']]
+        else:
+            return None
+    for t in d.get('trs', []):
+        t['o'] = [v * k for v in t['o']]
+    for c in d['cells']:
+        c['trcl'] = {'o': [v * k for v in c['trcl']['o']], 'm': list(c['trcl']['m'])}
+        c['ftr'] = {'o': [v * k for v in c['ftr']['o']], 'm': list(c['ftr']['m'])}
+        if c.get('lvecs'):
+            c['lvecs'] = [[v * k for v in vec] for vec in c['lvecs']]
+    d['scaled'] = k
+    return d
+
+
 # ---------------------------------------------------------------------------
 # renumbering: the meaning of a deck does not depend on the numbers chosen for cells, surfaces, universes
 
